@@ -125,7 +125,7 @@ func runC06(t *rapid.T, w *rep.Worker) {
 		for i, n := 0, rapid.IntRange(1, 5).Draw(t, "nprefix"); i < n; i++ {
 			switch rapid.IntRange(0, 6).Draw(t, "prefixop") {
 			case 6:
-				if rapid.IntRange(0, 15).Draw(t, "burst") == 0 {
+				if rapid.IntRange(0, 31).Draw(t, "burst") == 0 {
 					// a long run of failing decodes of one damaged input into scratch messages: whatever a decoder
 					// counts, caches or pools across calls gets exercised well past the usual thresholds
 					ob := encodeDrawn(t, typ)
